@@ -26,7 +26,8 @@ SPEC = {
             "transaction blocks. distinct_nontrivial = distinct implementation transcripts.",
     "not_proved": [
         "that each real operation/kernel is a closure writing only through the log (code fact, covered by the campaign)",
-        "kernels (vertex insertion, triangulation, swap, cut, collapse) are covered by the campaign only once their model exists",
+        "kernels: swap / cut / collapse are covered by the separate stream `remeshing kernels` (their model exists: Model/Kernels/{Swap,Cut,"
+        "Collapse}.lean); vertex insertion and triangulation by the checks of C13/C14",
     ],
 }
 
@@ -103,9 +104,28 @@ def tx_fault_blocks(count, rng, mask=0b10111):
     return cases
 
 
+def remesh_fault_cases(rng, kmax, per_mesh):
+    """separate stream (C15 kernels): swap / cut / collapse on small split grids carrying the fault-injectable VTerm (vertex) and
+    ETerm (edge) attributes at every cell; the k-th attribute-law call of the kernel fails"""
+    from props import c15
+    cases = []
+    for (nx, ny) in ((1, 1), (2, 1), (2, 2)):
+        pre, g = c15.setup(nx, ny, 3, rng, False)
+        pre = list(pre) + [f"wa 2 {e} {200 + e}" for e in sorted({g.eid(d) for d in g.linked})]
+        darts = g.linked if len(g.linked) <= per_mesh else rng.sample(g.linked, per_mesh)
+        for e in darts:
+            for op in ([f"swap {e}"], [f"collapse {e}"], c15.cut_lines(g, e, rng)):
+                for k in range(0, kmax + 1):
+                    lines = pre + op[:-1] + ["snap"] + ([f"fault {k}"] if k else []) + [op[-1], "snap"]
+                    cases.append(Case(f"rf{nx}x{ny}-{len(cases)}", lines, oracle="unchanged", meta={"sig": op[-1].split()[0], "k": k}))
+    return cases
+
+
 def run(tier, seed):
     rng = random.Random(seed)
     parts = []
+    parts.append(("remeshing kernels (swap / cut / collapse) with fault positions k<=12",
+                  hv.campaign(remesh_fault_cases(rng, 12, 12 if tier == "quick" else 24), oracle_unchanged, canon=canon)))
     if tier == "quick":
         r = hv.campaign(fault_cases(rng, 3, 8), oracle_unchanged, canon=canon)
         r["stats"]["exhaustive"] = True
